@@ -127,8 +127,9 @@ func modeName(crc bool) string {
 }
 
 type ctx struct {
-	o    *vrt.Obs
-	seed int64
+	o     *vrt.Obs
+	seed  int64
+	calls int
 }
 
 const maxViolationsPerCase = 40
@@ -185,6 +186,16 @@ func (c *ctx) libToRef(what string, in []byte, crc bool, parts []int, stats bool
 	m := modeName(crc)
 	det := func(stream []byte) map[string]any {
 		return map[string]any{"direction": "library->reference", "input": what, "input_hex": lzwork.Hex(in, 200), "stream_hex": lzwork.Hex(stream, 200), "mode": m}
+	}
+	c.calls++
+	if c.calls%200 == 17 {
+		// now and then a transfer of this process fails (destination drops after a few kB): what it leaves
+		// behind must not leak into the next stream
+		junk := lzwork.Spec{Fam: "random", Size: 9000 + 500*(c.calls%7), Seed: int64(c.calls)}.Bytes()
+		if pv := lzwork.CompressToFailingDestination(junk, c.calls%400 == 17, []int{0, 100, 4096, 5000, 8191}[(c.calls/200)%5]); pv != nil {
+			c.panicked(pv, det(nil))
+		}
+		c.o.Count("failed_transfers_interleaved", 1)
 	}
 	res := lzwork.Compress(in, crc, parts)
 	switch {
